@@ -10,6 +10,7 @@ import (
 	"pgregory.net/rapid"
 
 	"verif/gen"
+	"verif/pairs"
 	"verif/pk"
 	"verif/px"
 	"verif/sb"
@@ -290,8 +291,12 @@ var ctxs = []ctx{
 	{"nested-block", func(s string) string { return "{\n        " + s + "\n    }" }},
 	{"loop-body", func(s string) string { return "for it in 0..1 {\n        " + s + "\n    }" }},
 	{"lambda-body", func(s string) string { return "let lam = fn() {\n        " + s + "\n    };\n    lam();" }},
-	{"match-arm", func(s string) string { return "match 1 {\n        1 => {\n            " + s + "\n        }\n        _ => { println(0); }\n    }" }},
-	{"try-body", func(s string) string { return "try {\n        " + s + "\n    } catch e {\n        println(e.message);\n    }" }},
+	{"match-arm", func(s string) string {
+		return "match 1 {\n        1 => {\n            " + s + "\n        }\n        _ => { println(0); }\n    }"
+	}},
+	{"try-body", func(s string) string {
+		return "try {\n        " + s + "\n    } catch e {\n        println(e.message);\n    }"
+	}},
 	{"after-unicode-line", func(s string) string { return "println(\"ääö 日本 𝄞\"); // é\n    " + s }},
 	{"multi-line-call", func(s string) string { return "println(\n        1,\n        2\n    );\n    " + s }},
 }
@@ -554,4 +559,38 @@ func siteExpr(f failure) string {
 		return "{ " + f.site + "; 0 }"
 	}
 	return f.site
+}
+
+// ---------------------------------------------------------------------------------------------
+// (d) the shared cross product of small ill-typed programs (verif/pairs): every diagnostic they provoke
+// carries a valid position and renders. Random damage rarely produces *type* errors about function types,
+// options, objects ...; this table produces them by construction.
+func TestTablePairSpans(t *testing.T) {
+	pk.SkipIfReplay(t)
+	col := pk.NewCollector()
+	progs := pairs.Programs()
+	var wg sync.WaitGroup
+	sem := make(chan struct{}, 24)
+	for i, p := range progs {
+		if !pk.Mine(i) {
+			continue
+		}
+		wg.Add(1)
+		sem <- struct{}{}
+		go func(p pairs.Program) {
+			defer wg.Done()
+			defer func() { <-sem }()
+			c := TextCase{Modules: map[string]string{"main": p.Text}, Entry: "main", Note: p.Kind}
+			pk.Eval()
+			pk.NonTrivial(p.Text, nil)
+			f := checkText(c)
+			if f != nil {
+				f.Sig = f.Sig + ":" + p.Kind
+			}
+			col.Report(c, f)
+		}(p)
+	}
+	wg.Wait()
+	pk.Exhaustive("pair-spans")
+	col.Done(t)
 }
